@@ -9,6 +9,8 @@ fn pow10(n: u32) -> u64 { let mut p = 1u64; let mut i = 0; while i < n { p *= 10
 crate::harnesses! {
     /// f32 remove_trailing_zeros: for every non-zero u32 m, returns (m', s) with m' * 10^s == m and 10 does not divide m'.
     /// @prop C02
+    /// (quick tier: the same contract is proved for every input by the Verus units wf_rtz / wf_dbmul; this harness supplies counterexamples)
+    /// @tier thorough
     /// @feat default radix_format
     /// @fn lexical-write-float::algorithm::DragonboxFloat::remove_trailing_zeros[f32]
     /// @fn lexical-write-float::algorithm::rotr32
@@ -26,6 +28,8 @@ crate::harnesses! {
 
     /// f64 remove_trailing_zeros on significands below 2^32 (magic-number divisibility test by 10^8, then the 32-bit loop).
     /// @prop C02
+    /// (quick tier: the same contract is proved for every input by the Verus units wf_rtz / wf_dbmul; this harness supplies counterexamples)
+    /// @tier thorough
     /// @feat default radix_format
     /// @bound significand < 2^32 (the function is used for significands up to 10^17)
     /// @fn lexical-write-float::algorithm::DragonboxFloat::remove_trailing_zeros[f64]
@@ -43,6 +47,8 @@ crate::harnesses! {
 
     /// f64 remove_trailing_zeros on k * 10^8 + d with k < 2^27, d < 4 (values around multiples of 10^8 up to 1.3e16).
     /// @prop C02
+    /// (quick tier: the same contract is proved for every input by the Verus units wf_rtz / wf_dbmul; this harness supplies counterexamples)
+    /// @tier thorough
     /// @feat default radix_format
     /// @bound significands k * 10^8 + d, k < 2^27, d in 0..=3
     /// @fn lexical-write-float::algorithm::DragonboxFloat::remove_trailing_zeros[f64] (divisibility by 10^8)
@@ -63,6 +69,8 @@ crate::harnesses! {
 
     /// divide_by_pow10 (f64, exp = KAPPA + 1 = 3) == n / 1000 for every n <= n_max used by compute_nearest_normal.
     /// @prop C02
+    /// (quick tier: the same contract is proved for every input by the Verus units wf_rtz / wf_dbmul; this harness supplies counterexamples)
+    /// @tier thorough
     /// @feat default radix_format
     /// @fn lexical-write-float::algorithm::divide_by_pow10_64
     /// @fn lexical-write-float::algorithm::umul128_upper64
@@ -76,6 +84,8 @@ crate::harnesses! {
 
     /// divide_by_pow10 (f32, exp = KAPPA + 1 = 2) == n / 100 for every n <= n_max.
     /// @prop C02
+    /// (quick tier: the same contract is proved for every input by the Verus units wf_rtz / wf_dbmul; this harness supplies counterexamples)
+    /// @tier thorough
     /// @feat default radix_format
     /// @fn lexical-write-float::algorithm::divide_by_pow10_32
     fn dragonbox_divide_by_pow10_f32() {
